@@ -19,6 +19,9 @@ type Reader struct {
 	Budget int // 0 = 64+16*len
 	// MaxChunk, when > 0, is the most bytes one Read call returns (short reads are legal for an io.Reader)
 	MaxChunk int
+	// EOFWithData makes the Read call that delivers the last byte also return io.EOF (legal for an
+	// io.Reader: iotest.DataErrReader, compressed and HTTP body readers behave like that)
+	EOFWithData bool
 	// Tripped is set when the budget was exceeded (the code under test may recover the panic)
 	Tripped bool
 	// Next, if set, supplies bytes lazily (environment-driven exploration): called
@@ -76,6 +79,9 @@ func (r *Reader) Read(p []byte) (int, error) {
 	if n == 0 {
 		return 0, io.EOF
 	}
+	if r.EOFWithData && r.Next == nil && r.Pos >= len(r.Data) {
+		return n, io.EOF
+	}
 	return n, nil
 }
 
@@ -121,6 +127,19 @@ func (r *Reader) ReadRune() (rune, int, error) {
 	}
 	r.Pos += size
 	return ru, size, nil
+}
+
+// ByteWriter is a Writer that also implements io.ByteWriter; a WriteByte call counts as a Write call
+// of one byte and is subject to the same fault.
+type ByteWriter struct{ *Writer }
+
+// WriteByte implements io.ByteWriter.
+func (b ByteWriter) WriteByte(c byte) error {
+	n, err := b.Writer.Write([]byte{c})
+	if err == nil && n < 1 {
+		return io.ErrShortWrite
+	}
+	return err
 }
 
 // ErrInjected is the error a faulting writer returns.
